@@ -85,6 +85,8 @@ func TestVerifConnState(t *testing.T) {
 	defer tr.Close()
 
 	settle := time.Duration(vkEnvInt("VERIF_CS_SETTLE_US", 150)) * time.Microsecond
+	verifYieldHook = vcsYield
+	defer func() { verifYieldHook = nil }()
 	api := NewAPI() // no interceptors: nothing of this property depends on them
 
 	// behaviours are independent (one fresh PeerConnection each, own handler channel): a few workers
@@ -138,10 +140,61 @@ func vcsReplay(t *testing.T, tr *vkTrace, api *API, bh vcsBehaviour, settle time
 			"sig": fmt.Sprintf("upd(%s,%s,%s)@%s", vcsBool(st.Closed), st.ICE, st.DTLS, before.String()),
 		})
 	}
-	// leave the connection as Close expects it, silence the handler, release everything
-	pc.OnConnectionStateChange(func(PeerConnectionState) {})
+	// the last update of every connection is the real one made by Close (step 11). Every third
+	// behaviour lets a transport callback get in between Close setting the closed flag and that step
+	// (it already reports closed); whatever the order, the handler hears closed once if the state was
+	// not closed, and not at all if it was.
 	pc.isClosed.Store(false)
-	_ = pc.Close()
+	before := pc.ConnectionState()
+	racing := bh.ID%3 == 0
+	done := make(chan struct{})
+	if racing {
+		g := &vcsGate{arrived: make(chan struct{}, 1), release: make(chan struct{})}
+		vcsGates.Store(pc, g)
+		go func() {
+			_ = pc.Close()
+			close(done)
+		}()
+		select {
+		case <-g.arrived:
+			pc.updateConnectionState(ICEConnectionStateDisconnected, DTLSTransportStateConnected)
+			close(g.release)
+		case <-done: // Close did not come by the gate (no hook in this build)
+		case <-time.After(5 * time.Second):
+			close(g.release)
+		}
+		<-done
+		vcsGates.Delete(pc)
+	} else {
+		_ = pc.Close()
+	}
+	expect := 0
+	if before != PeerConnectionStateClosed {
+		expect = 1
+	}
+	notes := vcsCollect(ch, expect, 2*time.Second, 4*settle)
+	tr.Emit(vkM{
+		"ev": "upd", "t": bh.ID, "k": len(bh.Steps),
+		"closed": true, "ice": "by-close", "dtls": "by-close",
+		"before": before.String(), "after": pc.ConnectionState().String(), "notes": notes,
+		"sig": fmt.Sprintf("close(racing-update=%s)@%s", vcsBool(racing), before.String()),
+	})
+}
+
+// gate for "pc.close.step11", per connection (behaviours are replayed by several workers at once)
+type vcsGate struct{ arrived, release chan struct{} }
+
+var vcsGates sync.Map //nolint:gochecknoglobals
+
+func vcsYield(point string, obj any, _ ...any) {
+	if point != "pc.close.step11" {
+		return
+	}
+	if g, ok := vcsGates.Load(obj); ok {
+		gate, _ := g.(*vcsGate)
+		gate.arrived <- struct{}{}
+		<-gate.release
+	}
 }
 
 // ---- real connected pairs -----------------------------------------------------------------------
